@@ -191,6 +191,8 @@ def gen_scenario(rnd, tier):
         focus = rnd.choice(["functions", "errors", "loops", "functions"])
         g = ml.Gen(rnd, focus, nfuncs=rnd.randint(1, 3))
         funcs, prog = g.program(nstmts=0)
+        if not any(f["name"] == "tmul" for f in funcs):     # programs with focus "errors" call it
+            funcs.append({"name": "tmul", "params": ["z"], "ptypes": [None], "ret": "int", "order": 99, "body": [("return", ("bin", "*", ("var", "z"), ("int", 2)))]})
         inits = [s for s in prog if s[0] == "assign"]
         sc["init"] = ml.render(funcs, inits, rnd)
         sc["progs"] = []
